@@ -36,6 +36,7 @@ def features(case, run, val):
 
 def known_match(failure, case, hyp_violated):
     if 'incomparable' in failure: return 'F9'
+    if 'hang' in failure and not tracelib.convex(case): return 'F9h'
     if 'deadlock [lazy_stepping=True model_blocked=True]' in failure and not tracelib.convex(case): return 'F21'
     return None
 
